@@ -355,6 +355,25 @@ TypeOK ==
   /\ crec \subseteq DOMAIN frec
   /\ disk = crec
 
+(* ---- the same properties, printing the offending behaviour as JSON for the replay harness ---- *)
+Cex(h) == PrintT(<<"X", ToJson(h)>>)
+XRefines == Refines \/ ~Cex(hist)
+XRegAgrees == RegAgrees \/ ~Cex(hist)
+XReadableHasContent == ReadableHasContent \/ ~Cex(hist)
+XReclaimed == Reclaimed \/ ~Cex(hist)
+XTypeOK == TypeOK \/ ~Cex(hist)
+XGCInvisible ==
+  [][(hist' # hist /\ Last(hist').op = "gc") =>
+       \/ \A t \in Readers, k \in Keys : MechRead(t, k)' = MechRead(t, k)
+       \/ ~Cex(hist')]_vars
+XLateIsIdentity ==
+  [][(hist' # hist /\ Last(hist').op \in {"lset", "ldel", "lget", "lkeys", "lcommit", "lrollback"}) =>
+       \/ UNCHANGED <<txs, all, crec, disk, frec, reg>>
+       \/ devFired' # {}
+       \/ ~Cex(hist')]_vars
+XCommitAsPromised ==
+  [][(hist' # hist /\ Last(hist').op = "commit") => (Last(hist').res = Last(hist').pres \/ ~Cex(hist'))]_vars
+
 (* ====================== canonical (rank) view ====================== *)
 (* Only the order and identity of sequence numbers, content ids and ghost times matter; the  *)
 (* counters themselves and the history stay out of the fingerprint.                          *)
